@@ -479,7 +479,8 @@ impl Property for C14 {
         "Valid polygons / multipolygons of every ring family, and single-operator mutants of them: swap two vertices (bow-tie), \
          insert a spike, collapse a ring to collinear points, revisit a vertex, move a hole outside / across the shell, hole sharing \
          an edge with the shell, second hole equal to / sharing an edge with / nested in another, hole equal to the shell, too few \
-         coordinates, repeated vertices (valid), duplicated / overlapping / edge-sharing / nested / far / vertex-touching \
+         coordinates (also a one-coordinate hole, an exterior collapsed to a point or emptied while its holes stay, and - two defects \
+         at once - such a member whose hole is moved across another member), repeated vertices (valid), duplicated / overlapping / edge-sharing / nested / far / vertex-touching \
          multipolygon members, NaN / +-inf injection; plus valid geometries of the other types; under exact similarities. Oracle: a \
          literal transcription of the statement on the lattice (exact ring simplicity, exact DE-9IM between rings taken as \
          polygons) which also says which ring / member has which defect. Checked: is_valid <=> oracle; validation_errors empty <=> \
